@@ -103,6 +103,11 @@ func c16Check(env *core.Env, cc core.Case) core.Verdict {
 	if isSource {
 		src, extra := c16Inject(ft.File.Sources[ft.Key], c.Fault, c.Pos, len(c.Proj.Tests)+idx)
 		tree["regex-assembly/"+ft.Key+".ra"] = src
+		if (len(src)+idx)%4 == 1 && c.Cmd != "generate-stdin" {
+			// the faulty assembly file is reached through a symbolic link (kept outside regex-assembly)
+			tree["shared/"+ft.Key+".ra"] = src
+			tree["regex-assembly/"+ft.Key+".ra"] = sut.SymlinkPrefix + "../shared/" + ft.Key + ".ra"
+		}
 		for n, s := range extra {
 			tree["regex-assembly/include/"+n+".ra"] = s
 		}
